@@ -10,6 +10,7 @@ import (
 	"io"
 	"net/http"
 	"net/http/httptest"
+	"reflect"
 	"regexp"
 	"sort"
 	"strings"
@@ -189,6 +190,14 @@ func middlewareCtx(classes ...templ.CSSClass) (context.Context, string) {
 	return got, rec.Body.String()
 }
 
+func names(l []templ.ComponentScript) []string {
+	var out []string
+	for _, s := range l {
+		out = append(out, s.Name)
+	}
+	return out
+}
+
 func main() {
 	run = vlib.Start("C12", "model_checking")
 	s1Name, s2Name = s1().Name, s2("a").Name
@@ -270,6 +279,30 @@ func main() {
 		mw.ServeHTTP(httptest.NewRecorder(), httptest.NewRequest("GET", "/a", nil))
 		mw.ServeHTTP(httptest.NewRecorder(), httptest.NewRequest("GET", "/b", nil))
 		return [2]context.Context{got[0], got[1]}
+	}})
+	preBOf := map[string][]string{"contexts A and B behind two copies of one CSS middleware value with different stylesheets (c1 / c2)": {C2}}
+	// two middlewares made by copying one constructor-built value and giving the copy its own stylesheet (CSSMiddleware is
+	// a plain struct with exported fields): context A behind the original (c1), context B behind the copy (c2), and the
+	// copy serves first
+	variants = append(variants, variant{"contexts A and B behind two copies of one CSS middleware value with different stylesheets (c1 / c2)", []string{C1}, func() [2]context.Context {
+		var got []context.Context
+		next := http.HandlerFunc(func(w http.ResponseWriter, r *http.Request) { got = append(got, r.Context()) })
+		a := templ.NewCSSMiddleware(next, c1())
+		b := a
+		b.CSSHandler = templ.NewCSSHandler(c2())
+		b.ServeHTTP(httptest.NewRecorder(), httptest.NewRequest("GET", "/b", nil))
+		a.ServeHTTP(httptest.NewRecorder(), httptest.NewRequest("GET", "/a", nil))
+		return [2]context.Context{got[1], got[0]}
+	}})
+	// the stylesheet of a middleware is replaced after it has served a page: later requests see the new registration
+	variants = append(variants, variant{"context A behind a CSS middleware whose stylesheet was replaced (c1 -> c2) after its first page", []string{C2}, func() [2]context.Context {
+		var got context.Context
+		next := http.HandlerFunc(func(w http.ResponseWriter, r *http.Request) { got = r.Context() })
+		mw := templ.NewCSSMiddleware(next, c1())
+		mw.ServeHTTP(httptest.NewRecorder(), httptest.NewRequest("GET", "/first", nil))
+		mw.CSSHandler = templ.NewCSSHandler(c2())
+		mw.ServeHTTP(httptest.NewRecorder(), httptest.NewRequest("GET", "/second", nil))
+		return [2]context.Context{got, templ.InitializeContext(context.Background())}
 	}})
 	// two stacked CSS middlewares (site-wide registering c1 around a section one registering c2): one context, both registered
 	variants = append(variants, variant{"context A behind two stacked CSS middlewares registering c1 (outer) and c2 (inner)", []string{C1, C2}, func() [2]context.Context {
@@ -359,6 +392,30 @@ func main() {
 			}
 		}
 		run.Cov["script_templates_and_classes_in_one_process"] = 600
+		// a caller-owned list of scripts passed with list...: the call must leave the list as it is, in every state of
+		// the context (nothing rendered yet, the first / the second / both already rendered), and a later context
+		// must get both definitions from the same list
+		mkList := func() []templ.ComponentScript { return []templ.ComponentScript{s1(), s2("a"), s1()} }
+		for mask := 0; mask < 4; mask++ {
+			list := mkList()
+			ctx := templ.InitializeContext(context.Background())
+			if mask&1 != 0 {
+				templ.RenderScriptItems(ctx, io.Discard, s1())
+			}
+			if mask&2 != 0 {
+				templ.RenderScriptItems(ctx, io.Discard, s2("a"))
+			}
+			var b strings.Builder
+			templ.RenderScriptItems(ctx, &b, list...)
+			if !reflect.DeepEqual(list, mkList()) {
+				run.Violation("caller-list-modified", fmt.Sprintf("RenderScriptItems(ctx, w, list...) with %d of the scripts already rendered changed the caller's list to %v", mask, names(list)), map[string]any{"already_rendered_mask": mask})
+			}
+			var b2 strings.Builder
+			templ.RenderScriptItems(templ.InitializeContext(context.Background()), &b2, list...)
+			if strings.Count(b2.String(), "function "+s1Name+"(") != 1 || strings.Count(b2.String(), "function "+s2Name+"(") != 1 {
+				run.Violation("caller-list-modified", fmt.Sprintf("the same list rendered afterwards in a fresh context emits %q: each of the two definitions is expected once", b2.String()), map[string]any{"already_rendered_mask": mask})
+			}
+		}
 	}
 	// stylesheet endpoint serves the registered rules
 	if _, sheet := middlewareCtx(c1(), c2()); !strings.Contains(sheet, "."+c1ID+"{") || !strings.Contains(sheet, "."+c2ID+"{") {
@@ -407,6 +464,9 @@ func main() {
 			if strings.Contains(v.name, "ONE CSS middleware") {
 				init[1][id] = true
 			}
+		}
+		for _, id := range preBOf[v.name] {
+			init[1][id] = true
 		}
 		// BFS to closure over the (finite) model state space
 		type node struct {
@@ -465,7 +525,7 @@ func main() {
 	run.Sample(map[string]any{"history": []string{"ctxA: " + ops[7].name, "ctxB: " + ops[4].name, "ctxA: " + ops[4].name}, "expect": "third step emits no <style>: c1 already emitted in A; B unaffected"})
 	run.Sample(map[string]any{"op": ops[3].name, "fresh_output": fresh[3]})
 	run.Assumption("the reference model derives an operation's output in state S from its output in a fresh context by deleting the definitions of ids in S; the fresh output itself is checked for at-most-once, definition-before-use and presence of every use")
-	run.Finish(transitions, states, "BFS to closure over per-context emitted sets (2 scripts, 2 classes, 2 once handles, 2 contexts, 6 context variants incl. shared, stacked and layout-then-middleware) with 29 operations incl. wrappers, child blocks and repeated uses; plus every unmerged history ≤ N over 14 base operations × 2 contexts; distinct = model states")
+	run.Finish(transitions, states, "BFS to closure over per-context emitted sets (2 scripts, 2 classes, 2 once handles, 2 contexts, 8 context variants incl. shared, copied, replaced, stacked and layout-then-middleware) with 29 operations incl. wrappers, child blocks and repeated uses; plus every unmerged history ≤ N over 14 base operations × 2 contexts; distinct = model states")
 }
 
 func clone(m map[string]bool) map[string]bool {
